@@ -488,6 +488,87 @@ pub mod div {
     }
 }
 
+// ---------------------------------------------------------------- R-PRUNE
+pub mod prune {
+    pub struct Node {
+        pub children: [Option<usize>; 4],
+        pub is_final: bool,
+    }
+    pub fn ok_remove(nodes: &mut Vec<Node>, path: &[(usize, u8)]) {
+        for &(parent, sym) in path.iter().rev() {
+            nodes[parent].children[sym as usize] = None;
+            let has_children = nodes[parent].children.iter().any(|c| c.is_some());
+            if has_children || nodes[parent].is_final {
+                break;
+            }
+        }
+    }
+    pub fn bad_remove(nodes: &mut Vec<Node>, path: &[(usize, u8)]) {
+        for &(parent, sym) in path.iter().rev() {
+            nodes[parent].children[sym as usize] = None;
+            if nodes[parent].children.iter().any(|c| c.is_some()) {
+                break;
+            }
+        }
+    }
+}
+
+// ---------------------------------------------------------------- R-PARALLEL
+pub mod par {
+    pub struct Tab {
+        pub entries: Vec<(u32, bool)>,
+        pub cache: Vec<u64>,
+    }
+    impl Tab {
+        pub fn ok_compact(&mut self) {
+            let mut w = 0;
+            for r in 0..self.entries.len() {
+                if self.entries[r].1 {
+                    self.entries[w] = self.entries[r];
+                    self.cache[w] = self.cache[r];
+                    w += 1;
+                }
+            }
+            self.entries.truncate(w);
+            self.cache.truncate(w);
+        }
+        pub fn bad_compact(&mut self) {
+            self.entries.retain(|e| e.1);
+            let n = self.entries.len();
+            self.cache.truncate(n);
+        }
+    }
+}
+
+// ---------------------------------------------------------------- R-SIGNED
+#[cfg(target_arch = "x86_64")]
+pub mod simdsign {
+    use std::arch::x86_64::*;
+    #[target_feature(enable = "sse2")]
+    pub unsafe fn bad_memcmp16(a: *const u8, b: *const u8) -> i32 {
+        let va = _mm_loadu_si128(a as *const __m128i);
+        let vb = _mm_loadu_si128(b as *const __m128i);
+        let ne = !_mm_movemask_epi8(_mm_cmpeq_epi8(va, vb)) & 0xFFFF;
+        if ne == 0 {
+            return 0;
+        }
+        let lt = _mm_movemask_epi8(_mm_cmplt_epi8(va, vb));
+        if lt & (ne & -ne) != 0 { -1 } else { 1 }
+    }
+    #[target_feature(enable = "sse2")]
+    pub unsafe fn ok_memcmp16(a: *const u8, b: *const u8) -> i32 {
+        let bias = _mm_set1_epi8(-128);
+        let va = _mm_xor_si128(_mm_loadu_si128(a as *const __m128i), bias);
+        let vb = _mm_xor_si128(_mm_loadu_si128(b as *const __m128i), bias);
+        let ne = !_mm_movemask_epi8(_mm_cmpeq_epi8(va, vb)) & 0xFFFF;
+        if ne == 0 {
+            return 0;
+        }
+        let lt = _mm_movemask_epi8(_mm_cmplt_epi8(va, vb));
+        if lt & (ne & -ne) != 0 { -1 } else { 1 }
+    }
+}
+
 // ---------------------------------------------------------------- R-VARIANT
 pub mod variant {
     pub enum Storage {
